@@ -233,11 +233,11 @@ def run_shard(ctx):
         fmt = formats.FORMATS[i % len(formats.FORMATS)]
         force = None
         if fmt == "images":
-            force = ["many-per-cell", "shared-object", "near-equal-paths", None][(i // 7) % 4]
+            force = ["many-per-cell", "shared-object", "near-equal-paths", "identity-equal-same-checksums", None][(i // 7) % 5]
         if fmt == "composeinfo":
             force = ["depth-3", "paths-full", "many-variants", None][(i // 7) % 4]
         if fmt == "treeinfo":
-            force = ["several-platforms", "mixed-case-options", "depth-3", "checksums", "many-variants", None][(i // 7) % 6]
+            force = ["several-platforms", "mixed-case-options", "depth-3", "checksums", "many-variants", "platform-named-like-legacy-section", None][(i // 7) % 7]
         D = formats.gen(fmt, rng, force, hostile=(i % 2 == 0))
         case = {"fmt": fmt, "content_index": i, "D": D}
         dset = []
